@@ -329,6 +329,7 @@ class GenObj:
     done: bool = False
     started: bool = False
     shared: bool = False
+    retval: Any = None
 
     def __repr__(self) -> str:
         return f"<gen {self.label}#{self.uid}>"
